@@ -4,6 +4,7 @@
 # $VP_RUN_REPO is set (vp run --with-repo), else against /repo.  Prints one line per seed.
 prop="$1"; a="$2"; b="$3"; budget="${4:-60}"
 [ -n "${VP_RUN_REPO:-}" ] && export VERIF_REPO="$VP_RUN_REPO"
+export VERIF_EVIDENCE_DIR="${VERIF_EVIDENCE_DIR:-$(cd "$(dirname "$0")/.." && pwd)/.cache/evidence-scratch}"
 for s in $(seq "$a" "$b"); do
   out=$(VERIF_SEED=$s VERIF_BUDGET_S=$budget ./run "$prop" --tier quick 2>&1)
   code=$?
